@@ -14,6 +14,7 @@ mod c09;
 mod c10;
 mod c11;
 mod c12;
+mod usage;
 mod c07;
 mod c14;
 mod c15;
